@@ -311,6 +311,8 @@ def classify(n: ast.Name, pm: dict, ann: set, tc: set, modname: str, where: Func
         gp = pm.get(p)
         if isinstance(gp, ast.Assign) and any(isinstance(t, ast.Name) and t.id == "MESSAGE_TYPE_TO_PROTO" for t in gp.targets):
             return "registry"
+        if isinstance(gp, ast.AnnAssign) and isinstance(gp.target, ast.Name) and gp.target.id == "MESSAGE_TYPE_TO_PROTO":
+            return "registry"
     # argument of a package call whose parameter gets instantiated
     if isinstance(p, ast.Call) and where is not None:
         cs = res.callees(where, p)
